@@ -53,6 +53,24 @@ add('C18', 'model_checking',
     'JSON must equal the record with numbers printed, every dump row and every report Action block (candidate lines and totals) must equal values recomputed from the action.',
     'bounded election sizes; report parsed by its line labels',
     'DESIGN.md section 2 C18')
+add('C12', 'exploration',
+    'exhaustive enumeration of operand grids x operations x precisions on the real Fixed / Rational classes against exact integer / Fraction arithmetic',
+    'Every pair (triple for muldiv) of stored values in a complete grid, for precisions 0-4, every operation and both rounding modes, plus a boundary list (10^p +-1, 10^18, 10^40) crossed with itself at p in {4,5,9,18}, '
+    'and the full Rational grid, is evaluated once on the real class and compared with the exact law; result types are checked. Exhaustive over the grid, list-based beyond it.',
+    'operand magnitudes beyond the grids are represented only by the boundary list; division by zero excluded',
+    'DESIGN.md section 2 C12')
+add('C13', 'exploration',
+    'exhaustive enumeration: comparison-law bands for six (precision, guard) settings; differential Guarded(p,0) vs Fixed(p) over the operation grid and over every enumerated count; differential guarded vs rational counts under the statistics premise',
+    'All stored pairs in the tolerance bands around six anchors are compared with the documented law (incl. the maxDiff/minDiff statistics); every grid operation and every count of U(3,<=4) (+ equal-rank profiles) under wigm/meek/warren must be '
+    'identical between guard=0 and fixed; every wigm count of U(3,<=4/5) and meek/warren count of U(3,<=3/4) at three quasi-exact settings must match the rational count action for action whenever its own statistics show no near-tolerance comparison.',
+    'premise of the quasi-exact clause read from the count\'s own statistics; bounded election sizes; rational meek/warren under a CPU budget',
+    'DESIGN.md section 2 C13')
+add('C14', 'exploration',
+    'exhaustive enumeration of (class, precision, guard, display, stored value) grids printed by the real classes and judged against exact half-up rounding; renderings of a small election space cross-checked against str()',
+    'Every stored value of the grids (all integers in a symmetric range, carry cases, huge values, negatives) is printed under every display setting and the text is parsed and compared with the exact value rounded half-up; '
+    'sign, digit count and the guard-digit underscore are checked, and str() must not alter the value. Reports, dumps and JSON of U(3,<=3) x 14 configurations are re-derived from the record with str().',
+    'values outside the grids are represented by a boundary list; for negative exact ties both common half-up conventions are accepted (the statement does not choose)',
+    'DESIGN.md section 2 C14')
 
 NOT_YET = {}   # pid -> reason, filled below for properties without a registered check
 
